@@ -16,7 +16,9 @@ Proof. reflexivity. Qed.
 Lemma div_rep_pos w a b : 0 < b -> div_rep w a b = Val (Z.quot a b).
 Proof.
   intros Hb. unfold div_rep. destruct (b =? 0) eqn:E0; [lia|].
-  destruct (b =? -1) eqn:E1; [lia|]. rewrite Bool.andb_false_r. reflexivity.
+  destruct (b =? -1) eqn:E1; [lia|]. rewrite Bool.andb_false_r.
+  destruct (b =? 1) eqn:E2; [|reflexivity].
+  apply Z.eqb_eq in E2. subst b. rewrite Z.quot_1_r. reflexivity.
 Qed.
 
 Lemma period_ok_iff n d : period_ok n d = true <-> 0 < n <= max64 /\ 0 < d <= max64 /\ Z.gcd n d = 1.
@@ -25,13 +27,22 @@ Proof. unfold period_ok, lim64, max64. lia. Qed.
 (* the reduced conversion factor cn/cd = (n1*d2)/(d1*n2) *)
 Lemma cast_reduced n1 d1 n2 d2 c :
   0 < n1 * d2 -> 0 < d1 * n2 ->
-  let g := Z.gcd (n1 * d2) (d1 * n2) in
-  cast_spec n1 d1 n2 d2 c = Z.quot (c * ((n1 * d2) / g)) ((d1 * n2) / g).
+  cast_spec n1 d1 n2 d2 c = Z.quot (c * factor_num n1 d1 n2 d2) (factor_den n1 d1 n2 d2).
 Proof.
-  intros Ha Hb g. destruct (reduce_facts _ _ Ha Hb) as (Hg & Ea & Eb & Hcn & Hcd). fold g in Hg, Ea, Eb, Hcn, Hcd.
+  intros Ha Hb. destruct (factor_facts _ _ _ _ Ha Hb) as (Hg & Ea & Eb & Hcn & Hcd).
   unfold cast_spec.
-  replace (c * n1 * d2) with (c * (n1 * d2 / g) * g) by (rewrite <- Z.mul_assoc, <- Ea; ring).
-  rewrite Eb at 1. apply Z.quot_mul_cancel_r; lia.
+  replace (c * n1 * d2) with (c * (n1 * d2)) by ring. rewrite Ea, Eb. rewrite Z.mul_assoc.
+  apply Z.quot_mul_cancel_r; lia.
+Qed.
+
+Lemma cast_ok_iff w1 n1 d1 w2 n2 d2 c :
+  cast_ok w1 n1 d1 w2 n2 d2 c = true <->
+  factor_num n1 d1 n2 d2 <= max64 /\ factor_den n1 d1 n2 d2 <= max64
+  /\ in_rep w1 c = true /\ in64 (c * factor_num n1 d1 n2 d2) = true
+  /\ in_rep w2 (cast_spec n1 d1 n2 d2 c) = true.
+Proof.
+  unfold cast_ok. cbv zeta. rewrite !Bool.andb_true_iff, !Z.leb_le, !fits_in_rep.
+  unfold lim64, max64. change (in_rep 64) with in64. tauto.
 Qed.
 
 Lemma duration_cast_spec w1 n1 d1 w2 n2 d2 c :
@@ -43,18 +54,14 @@ Proof.
   intros Hw1 Hw2 Hp1 Hp2 Hok.
   pose proof (proj1 (period_ok_iff _ _) Hp1) as (Hn1 & Hd1 & Hg1).
   pose proof (proj1 (period_ok_iff _ _) Hp2) as (Hn2 & Hd2 & Hg2).
-  unfold cast_ok in Hok. cbv zeta in Hok. rewrite !Bool.andb_true_iff in Hok.
-  destruct Hok as ((((Ha & Hb) & Hc) & Hm) & Hr).
-  apply Z.leb_le in Ha, Hb. unfold lim64 in Ha, Hb.
+  apply cast_ok_iff in Hok. destruct Hok as (Ha & Hb & Hc & Hm & Hr).
   assert (Ha0 : 0 < n1 * d2) by nia. assert (Hb0 : 0 < d1 * n2) by nia.
-  rewrite fits64_in64 in Hm. rewrite fits_in_rep in Hc, Hr.
-  unfold duration_cast_m. cbn [rw pn pd].
-  rewrite ratio_divide_m_spec by (try assumption; unfold max64; lia).
+  unfold duration_cast_m. cbn [rw pn pd]. cbv zeta.
+  rewrite ratio_divide_m_spec by assumption.
   cbn [bind fst snd].
   rewrite (cast_reduced n1 d1 n2 d2 c Ha0 Hb0) in *.
-  destruct (reduce_facts _ _ Ha0 Hb0) as (Hg & Ea & Eb & Hcn & Hcd).
-  set (g := Z.gcd (n1 * d2) (d1 * n2)) in *.
-  set (cn := n1 * d2 / g) in *. set (cd := d1 * n2 / g) in *.
+  destruct (factor_facts _ _ _ _ Ha0 Hb0) as (Hg & Ea & Eb & Hcn & Hcd).
+  set (cn := factor_num n1 d1 n2 d2) in *. set (cd := factor_den n1 d1 n2 d2) in *.
   destruct (cn =? 1) eqn:Ecn.
   - apply Z.eqb_eq in Ecn. rewrite Ecn in *. rewrite Z.mul_1_r in *.
     destruct (cd =? 1) eqn:Ecd.
